@@ -333,6 +333,9 @@ fn gen_case(src: &mut Src, st: &mut Stats) -> Value {
             if src.flip() {
                 f = src.range(-40, 40) as f32 / 8.0;
             }
+            if src.chance(40) {
+                f = *src.pick(&[f32::MAX, -f32::MAX, f32::MIN_POSITIVE, 1e-45, -1e-45, 0.0, -0.0, 0.1, 16777217.0, f32::EPSILON]);
+            }
             json!((f.to_bits() as u64).to_string())
         }
         "f64" => {
@@ -342,6 +345,10 @@ fn gen_case(src: &mut Src, st: &mut Stats) -> Value {
             }
             if src.flip() {
                 f = src.range(-40, 40) as f64 / 8.0;
+            }
+            if src.chance(40) {
+                // the edges of the finite range
+                f = *src.pick(&[f64::MAX, -f64::MAX, f64::MIN_POSITIVE, -f64::MIN_POSITIVE, 5e-324, -5e-324, 0.0, -0.0, 1e308, 9007199254740993.0, f64::EPSILON]);
             }
             json!(f.to_bits().to_string())
         }
